@@ -249,4 +249,45 @@ def Mono (special : Str → Bool) : Prop := ∀ p q : Str, special p = true → 
 def rootDir (root : Str) : Str :=
   if root = [] then [] else if root.getLast? = some '/' then root else root ++ ['/']
 
+/-! ### archive members at specification level -/
+
+/-- the tar / directory member a specification item stands for: its name is
+the root directory prefix followed by `"/".join(final)`; content, executable
+bit and link target are the tree entry's (the per-file filter sees the tree
+path) -/
+def specTar (filt : Filter) (root : Str) (i : SItem) : Except Str Member :=
+  let name := rootDir root ++ pathStr i.final
+  match i.ent.kind with
+  | .file => .ok ⟨name, .file, filt (pathStr i.ent.cpath) i.ent.content, i.ent.exec, []⟩
+  | .dir => .ok ⟨name, .dir, [], false, []⟩
+  | .symlink => .ok ⟨name, .symlink, [], false, i.ent.target⟩
+  | .other => .error (pathStr i.final)
+
+/-- the zip member a specification item stands for -/
+def specZip (keepExec : Bool) (filt : Filter) (root : Str) (i : SItem) : Option Member :=
+  let name := rootDir root ++ pathStr i.final
+  match i.ent.kind with
+  | .file => some ⟨name, .file, filt (pathStr i.ent.cpath) i.ent.content, keepExec && i.ent.exec, []⟩
+  | .dir => some ⟨name ++ ['/'], .dir, [], false, []⟩
+  | .symlink => some ⟨name ++ ".lnk".toList, .file, utf8 i.ent.target, false, []⟩
+  | .other => none
+
+/-- the `subdir` argument (a Python `str` or `None`) denotes a component-level
+selection: `None` and `""` denote "no selection"; a `/`-join of good names
+followed by any number of slashes denotes that path -/
+inductive Denotes : Option Str → Option (List Name) → Prop
+  | none : Denotes none none
+  | empty : Denotes (some []) none
+  | path (s : List Name) (k : Nat) : s.all goodName = true → s ≠ [] →
+      Denotes (some (pathStr s ++ List.replicate k '/')) (some s)
+
+/-- `s.split("/")` -/
+def splitSlash : Str → List Str
+  | [] => [[]]
+  | c :: r =>
+    if c = '/' then [] :: splitSlash r
+    else match splitSlash r with
+      | [] => [[c]]
+      | h :: t => (c :: h) :: t
+
 end BreezyVerif.C42
